@@ -21,7 +21,7 @@ Proof.
   - repeat constructor; discriminate.
   - reflexivity.
   - repeat constructor; cbn; try lia; repeat constructor; discriminate.
-  - unfold not_bundle_addr. cbn. discriminate.
+  - unfold not_bundle_addr, bundle7. discriminate.
 Qed.
 
 (* D5b: a blob length of 0xfffffffc wraps the 32-bit position: the pinned
@@ -73,3 +73,22 @@ Proof.
   - unfold bytes_ok, d5c, bundle_magic. cbn [app]. repeat constructor; lia.
   - vm_compute. reflexivity.
 Qed.
+
+(* an ACCEPTED buffer (premise of the theorems about accepted buffers), chosen
+   non-canonical: "/a" ",s" "a" with a non-NUL byte in the string's padding *)
+Definition acc_noncanon : list byte := [47; 97; 0; 0; 44; 115; 0; 0; 97; 0; 0; 255].
+Lemma accepted_witness :
+  bytes_ok acc_noncanon /\ zlen acc_noncanon < 134217728 /\
+  valid_message_p acc_noncanon (zlen acc_noncanon) = Ok true.
+Proof.
+  split; [|split].
+  - unfold bytes_ok, acc_noncanon. repeat constructor; lia.
+  - vm_compute. reflexivity.
+  - vm_compute. reflexivity.
+Qed.
+
+(* the example message lies inside code_range *)
+Lemma example_code_range :
+  code_range [47; 97; 98] [115; 91; 105; 98; 93; 84]
+             [PStr [104; 101; 108; 108; 111]; P4 4294967295; PBlob 3 (Some [1; 2; 3])].
+Proof. split; [vm_compute; reflexivity | repeat constructor]. Qed.
